@@ -8,6 +8,19 @@ NONE = ""
 WEAK = "finalization,auto-collect,weak-ptrs"
 
 
+import os
+
+# VERIF_SCALE < 1 shrinks every workload of a plan (same steps, same feature sets, same tools, fewer histories): a smoke run of
+# the thorough tier. Evidence of such a run says so through its floors (inconclusive), it is never committed as thorough evidence.
+SCALE = float(os.environ.get("VERIF_SCALE", "1") or "1")
+
+
+def scaled(n, lo=1):
+    if SCALE >= 1 or n <= 0:
+        return n
+    return max(int(n * SCALE), lo)
+
+
 def sd(ctx, *parts):
     return (ctx.seed * 1000003 + zlib.crc32("|".join(str(p) for p in parts).encode())) % (1 << 48)
 
@@ -15,6 +28,7 @@ def sd(ctx, *parts):
 def native(ctx, prop, mode, features, profile, count, shards, faults="none", gen="random", extra=(), timeout=900, tool="native", alloc="quarantine", tag=""):
     steps = []
     seed = sd(ctx, mode, features, profile, gen, faults, tool)
+    count = scaled(count, 50 if faults == "none" else 10)
     for i in range(shards):
         args = ["--mode", mode, "--gen", gen, "--seed", str(seed), "--count", str(count), "--shard", str(i), "--nshards", str(shards),
                 "--props", prop, "--alloc", alloc, "--faults", faults] + list(extra)
@@ -26,6 +40,7 @@ def native(ctx, prop, mode, features, profile, count, shards, faults="none", gen
 def miri(ctx, prop, mode, features, count, shards, faults="none", gen="random", extra=(), timeout=600, flags=""):
     steps = []
     seed = sd(ctx, mode, features, "miri", gen, faults)
+    count = scaled(count, shards)
     for i in range(shards):
         # pass-through allocator (Miri judges the frees itself); no state hashing (slow under Miri)
         args = ["--mode", mode, "--gen", gen, "--seed", str(seed), "--count", str(count), "--shard", str(i), "--nshards", str(shards),
@@ -39,6 +54,7 @@ def miri(ctx, prop, mode, features, count, shards, faults="none", gen="random", 
 def exhaust(ctx, prop, mode, features, profile, depth, shards, variant="weak", faults="none", max_runs=3000000, timeout=900, tool="native", alloc="quarantine"):
     """Small-scope exploration with novelty pruning (harness/src/exhaust.rs)."""
     steps = []
+    max_runs = scaled(max_runs, 2000)
     for i in range(shards):
         args = ["--mode", mode, "--gen", "exhaust", "--depth", str(depth), "--variant", variant, "--shard", str(i), "--nshards", str(shards),
                 "--props", prop, "--alloc", alloc, "--faults", faults, "--max-runs", str(max_runs)]
@@ -55,6 +71,7 @@ def evolve(ctx, prop, mode, features, profile, count, shards, faults="none", ext
     history that showed a behaviour feature not seen before; children by small edits; same oracles as everything else."""
     steps = []
     seed = sd(ctx, mode, features, profile, "evolve", faults, tool)
+    count = scaled(count, 400)
     for i in range(shards):
         args = ["--mode", mode, "--gen", "evolve", "--seed", str(seed), "--count", str(count), "--shard", str(i), "--nshards", str(shards),
                 "--props", prop, "--alloc", alloc, "--faults", faults] + list(extra)
